@@ -45,6 +45,10 @@ AcquireMalformed ==   \* the reply cannot be deserialised: the error text quotes
              /\ Step /\ dirMode = "0700"
              /\ statusMsg' = IF Redact THEN statusMsg ELSE TRUE
              /\ UNCHANGED <<dirMode, onDisk, mem, out>>
+AcquireNon200 ==      \* a status other than 200 whose body is a key document: a failure; the error names the status only
+             /\ Step /\ dirMode = "0700"
+             /\ statusMsg' = IF Redact THEN statusMsg ELSE TRUE
+             /\ UNCHANGED <<dirMode, onDisk, mem, out>>
 FetchLocal == /\ Step /\ onDisk # "none" /\ mem' = onDisk /\ UNCHANGED <<dirMode, onDisk, statusMsg, out>>
 ClearKey == /\ Step /\ mem' = "none" /\ UNCHANGED <<dirMode, onDisk, statusMsg, out>>
 
@@ -65,7 +69,7 @@ UndeliveredReply == /\ Step /\ mem # "none"
                     /\ out' = IF Redact THEN out ELSE out \cup {"agentLog", "console"}
                     /\ UNCHANGED <<dirMode, onDisk, mem, statusMsg>>
 
-Next == UndeliveredReply \/ MkKeyDir \/ AclKeyDir \/ AcquireOk \/ AcquireNonHex \/ AcquireMalformed \/ FetchLocal \/ ClearKey
+Next == UndeliveredReply \/ MkKeyDir \/ AclKeyDir \/ AcquireOk \/ AcquireNonHex \/ AcquireMalformed \/ AcquireNon200 \/ FetchLocal \/ ClearKey
         \/ PublishStatus \/ ProvisionQuery \/ ProxySign
 Spec == Init /\ [][Next]_vars
 
